@@ -504,13 +504,21 @@ fn big_names() -> Vec<Vec<u8>> {
         if i == 123 {
             n = Vec::new();
         }
+        // control bytes in front of the terminator (a word-at-a-time NUL search can mistake them),
+        // names of every length 1..=17 ending in 0x01 / 0x7f / 0x80 / 0xff
+        if (200..268).contains(&i) {
+            let k = (i - 200) as usize;
+            let len = 1 + k % 17;
+            let last = [0x01u8, 0x7f, 0x80, 0xff][k / 17];
+            n = (0..len).map(|j| if j + 1 == len { last } else if j + 2 == len && k % 2 == 0 { last } else { b'a' + ((k + j) % 26) as u8 }).collect();
+        }
         v.push(n);
     }
     v
 }
 impl Space for BigTables {
     fn name(&self) -> String {
-        format!("{} with 300 names (duplicates, empty, >= 0x80 bytes): nbucket in {{1,7,64,300}} x bloom words {{1,16,64}} x symoffset {{1,17}} x 4 encodings; 300 present + 40 absent lookups each", if self.gnu { ".gnu.hash" } else { ".hash" })
+        format!("{} with 300 names (duplicates, empty, >= 0x80 bytes, names of every length 1..=17 ending in 01 / 7f / 80 / ff): nbucket in {{1,7,64,300}} x bloom words {{1,16,64}} x symoffset {{1,17}} x 4 encodings; 300 present + 40 absent lookups each", if self.gnu { ".gnu.hash" } else { ".hash" })
     }
     fn size(&self) -> u64 {
         4 * 4 * 3 * 2 + 4
